@@ -1,14 +1,25 @@
-"""Which engine (harness/bindings/<engine>.py) decides which property."""
+"""Which engine (harness/bindings/<engine>.py) decides which property: discovered from the bindings' META."""
 import importlib
 import os
-import pkgutil
 
 _HERE = os.path.join(os.path.dirname(os.path.abspath(__file__)), "bindings")
 
-# static map keeps `./check` start-up cheap; tools/gen_manifest.py verifies it against the bindings' META
-ENGINES = {
-    "fifo": ["C18"],
-}
+
+def _modules():
+    for f in sorted(os.listdir(_HERE)):
+        if f.endswith(".py") and not f.startswith("_"):
+            yield f[:-3]
+
+
+def _load():
+    eng = {}
+    for name in _modules():
+        mod = importlib.import_module("harness.bindings." + name)
+        eng[name] = sorted(getattr(mod, "META", {}).keys())
+    return eng
+
+
+ENGINES = _load()
 
 
 def engine_of(prop):
